@@ -1,34 +1,34 @@
-"""C10 - Weighted defuzzifiers compute the grouped weighted average / sum (structural clauses)."""
+"""C10 - Weighted defuzzifiers compute the grouped weighted average / sum.
+
+The two defuzzify methods are interpreted on model fuzzy outputs with symbolic degrees and term values (sa/rules/weighted_sem.py); grouping, the
+ownership of the grouped activations and the decision table of infer_type are decided on their own code.
+"""
 
 from __future__ import annotations
 
 import ast
-import itertools
 
-from ..absint import FINITE, NAN, NEG, NINF, NUM, PINF, POS, ZERO, Abs, Evaluator, return_term, show_abs
 from ..guards import RoleEval, paths
-from ..pm import AnalysisError, unparse
+from ..pm import unparse
 from ..report import Check
 from ..sym import PathResolver, Resolver, Term, path_of, show, walk
 from . import c13
-from .common import const_value, early_exits, is_path, iter_base, loc, loops_over, strip
+from .common import early_exits, loc
 
 EXPLANATION = (
     "static analysis of Aggregated.grouped_terms, WeightedDefuzzifier.infer_type and the two weighted defuzzifiers: "
-    "grouping key / default aggregation / combination of repeated terms / no aliasing of stored activations; the two "
-    "defuzzify() siblings are normalised and compared (same iteration, weight, value, accumulation; only the final "
-    "expression differs); the Tsukamoto inverse is selected iff the resolved type is Tsukamoto; infer_type's decision "
-    "table by path-sensitive abstract interpretation; and for every monotonic term tsukamoto(0) is interpreted over "
-    "the extended-sign domain (height > 0, slopes non-zero, other parameters finite) and pushed through the "
-    "accumulation expression with weight 0: the contribution must be exactly {zero}; with no activations or all "
-    "weights zero the result must be exactly {nan}; the same with the term value at 0 being anything (finite, infinite, NaN) on every "
-    "branch of the kind selection (conditions that are not about numbers fork the interpreter)"
+    "grouping key / default aggregation / combination of repeated terms / no aliasing of stored activations; the two defuzzify() methods are "
+    "interpreted abstractly on model fuzzy outputs of 0-3 groups (the first made of two raw activations) with symbolic degrees w_i, uninterpreted "
+    "term values membership(t, w) / tsukamoto(t, w) and uninterpreted numpy, for every fixed / inferred kind; the symbolic result is evaluated for "
+    "every choice of which degrees are zero to a rational-function normal form (np.where picks its branch, a zero divisor is NaN, the value of a "
+    "term at degree 0 may be infinite) and compared with sum(w*z)/sum(w) resp. sum(w*z) over the non-zero degrees, NaN when there is none (W-sem); "
+    "infer_type's decision table by path-sensitive abstract interpretation"
 )
 ASSUMPTIONS = [
     "parameter classes from the property's preconditions: height in (0,1], slopes non-zero, other parameters finite",
     "the weighted-average value and its bounds between constants are numeric and not decided",
 ]
-FLOORS = {"W-grp": 3, "H6": 2, "S3": 5, "T-inf": 5, "A2": 12, "A3": 4}
+FLOORS = {"W-grp": 3, "H6": 2, "W-sem": 12, "T-inf": 5}
 
 SELF = ("param", "self")
 SLOPES = {"slope"}
@@ -37,11 +37,12 @@ SLOPES = {"slope"}
 def run(check: Check) -> None:
     grouping(check)
     c13.ownership(check)
-    facts = {name: defuzzifier_facts(check, name) for name in ("WeightedAverage", "WeightedSum")}
-    siblings(check, facts)
+    from .weighted_sem import weighted_semantics
+
+    # the two defuzzify methods are decided by interpretation on model fuzzy outputs with symbolic degrees and values (sa/rules/weighted_sem.py); the
+    # rules of earlier rounds that recognised the loop, its accumulators, the value selector and the seeds (S3, A2, A3) are subsumed and were removed
+    weighted_semantics(check)
     infer_type_table(check)
-    zero_weight(check, facts)
-    empty_or_zero(check, facts)
     from .common import memoisation_rule
 
     memoisation_rule(check)
@@ -89,146 +90,14 @@ def grouping(check: Check) -> None:
 
 
 # ------------------------------------------------------------------------------------------------ defuzzify facts
-def defuzzifier_facts(check: Check, cname: str) -> dict:
-    p = check.program
-    c = p.cls(cname)
-    fn = c.methods.get("defuzzify")
-    if fn is None:
-        raise AnalysisError(f"anchor vanished: {cname}.defuzzify")
-    check.analysed(fn)
-    r = Resolver(p, fn)
-    cfg = r.cfg
-    loops = [h for h in cfg.loop_heads() if h.kind == "for"]
-    if len(loops) != 1:
-        raise AnalysisError(f"{cname}.defuzzify: expected one loop over the grouped terms")
-    h = loops[0]
-    it = [q for q, _ in h.pred if q.kind == "iter"][0]
-    iter_t = iter_base(r.term(h.ast.iter, it))[0]  # type: ignore[union-attr]
-    if iter_t[0] == "call" and iter_t[1][0] == "attr" and iter_t[1][2] == "grouped_terms":
-        # `for name in groups: groups[name]` ranges over the same activations as `for activated in groups.values()`
-        iter_t = ("call", ("attr", iter_t, "values"), (), ())
-    body = cfg.loop_body(h)
-    elem = ("elem", iter_t)
-    # accumulators: names with a loop-carried definition
-    carried = {}
-    for name, node, d in cfg.carried_uses(h):
-        carried.setdefault(name, d)
-    accs = {}
-    for name, d in carried.items():
-        t = r._def_term(d)
-        # increment = the part added to the carried value
-        inc = None
-        if t[0] == "binop" and t[1] == "+":
-            l, rr = t[2], t[3]
-            if _is_acc(l, name):
-                inc = rr
-            elif _is_acc(rr, name):
-                inc = l
-        accs[name] = {"def": d, "term": t, "inc": _canon(inc, iter_t) if inc is not None else None}
-    rets = [n for n in cfg.stmt_nodes() if isinstance(n.ast, ast.Return) and n.ast.value is not None]
-    ret_t = r.term(rets[-1].ast.value, rets[-1]) if rets else None  # type: ignore[union-attr]
-    ee = early_exits(cfg, h)
-    check.require(not ee, "S3", f"{cname}.defuzzify/all-terms", "every grouped activation contributes (the loop is never left early)" if not ee else
-                  f"the loop over the activations is left early at line {ee[0].lineno}", loc(fn, ee[0] if ee else h))
-    return {"fn": fn, "r": r, "cfg": cfg, "head": h, "iter": iter_t, "elem": elem, "accs": accs, "ret": ret_t, "retnode": rets[-1] if rets else None}
 
 
-def _canon(t: Term, iter_t: Term) -> Term:
-    """Operands of commutative operators sorted; elements of list(X) / enumerate(X) / X are the elements of X."""
-    from ..npcanon import sort_commutative as normalize
-
-    def rec(x):  # type: ignore[no-untyped-def]
-        if isinstance(x, tuple) and x and x[0] == "elem" and len(x) == 2:
-            return ("elem", iter_base(rec(x[1]))[0]) if iter_base(rec(x[1]))[0] != iter_t[1][1] or iter_t[1][2] != "values" else ("elem", iter_t)
-        if isinstance(x, tuple):
-            return tuple(rec(y) for y in x)
-        if isinstance(x, frozenset):
-            return frozenset(rec(y) for y in x)
-        return x
-
-    return normalize(rec(t))
 
 
-def _is_acc(t: Term, name: str) -> bool:
-    if t == ("carried", name):
-        return True
-    if t[0] == "phi":
-        return any(a == ("carried", name) for a in t[1])
-    return False
 
 
-def _w_z(facts: dict):
-    """Identify the weight accumulator (increment = w) and the weighted-sum accumulator (increment involves w and z)."""
-    elem = facts["elem"]
-    w = ("attr", elem, "degree")
-    wname = zname = None
-    for name, a in facts["accs"].items():
-        inc = a["inc"]
-        if inc is None:
-            continue
-        if inc == w:
-            wname = name
-        elif any(s == w for s in walk(inc)):
-            zname = name
-    return w, wname, zname
 
 
-def siblings(check: Check, facts: dict) -> None:
-    p = check.program
-    fa, fs = facts["WeightedAverage"], facts["WeightedSum"]
-    for key, what in (("iter", "iterate over self grouped terms"),):
-        same = fa[key] == fs[key]
-        good = fa[key][0] == "call" and fa[key][1][0] == "attr" and fa[key][1][2] == "values" and \
-            any(s[0] == "call" and s[1][0] == "attr" and s[1][2] == "grouped_terms" for s in walk(fa[key]))
-        check.require(same and good, "S3", "WeightedAverage~WeightedSum/iteration",
-                      "both defuzzifiers iterate over the grouped activations of the fuzzy output" if same and good else
-                      f"WeightedAverage iterates {show(fa[key])}, WeightedSum iterates {show(fs[key])}", loc(fa["fn"], fa["head"]))
-    infos = {}
-    for name, f in facts.items():
-        w, wname, zname = _w_z(f)
-        infos[name] = (w, wname, zname)
-        ok = wname is not None and zname is not None
-        check.require(ok, "S3", f"{name}.defuzzify/accumulators",
-                      "the loop accumulates the weights (w = activated.degree) and the weighted values" if ok else
-                      f"accumulators not recognised: {[(k, show(v['inc']) if v['inc'] else None) for k, v in f['accs'].items()]}", loc(f["fn"], f["head"]))
-    if all(i[1] and i[2] for i in infos.values()):
-        inc_a = fa["accs"][infos["WeightedAverage"][2]]["inc"]
-        inc_s = fs["accs"][infos["WeightedSum"][2]]["inc"]
-        check.require(inc_a == inc_s, "S3", "WeightedAverage~WeightedSum/contribution",
-                      "both defuzzifiers add the same contribution per activated term" if inc_a == inc_s else
-                      f"WeightedAverage adds {show(inc_a)[:120]} but WeightedSum adds {show(inc_s)[:120]}", loc(fs["fn"], fs["head"]))
-        # z is computed from w with the selected method of the activated term
-        for name, f in facts.items():
-            w = infos[name][0]
-            inc = f["accs"][infos[name][2]]["inc"]
-            zcalls = [s for s in walk(inc) if s[0] == "call" and s[2] == (w,) and s[1][0] == "call" and s[1][1][0] == "attr" and s[1][1][2] == "__getattribute__"]
-            zcalls += [s for s in walk(inc) if s[0] == "call" and s[2] == (w,) and s[1][0] == "call" and s[1][1] == ("global", "getattr")]
-            ok = False
-            why = f"contribution is {show(inc)[:140]}"
-            if zcalls:
-                sel = zcalls[0][1]
-                recv = sel[1][1] if sel[1][0] == "attr" else sel[2][0]
-                meth = sel[2][0] if sel[1][0] == "attr" else sel[2][1]
-                on_term = recv == ("attr", f["elem"], "term")
-                selects = meth[0] == "ifexp" and any(s == ("global", "fuzzylite.defuzzifier.WeightedDefuzzifier.Type.Tsukamoto") for s in walk(meth[1])) and \
-                    any(s == ("global", "fuzzylite.term.Term.tsukamoto") for s in walk(meth[2])) and any(s == ("global", "fuzzylite.term.Term.membership") for s in walk(meth[3])) and \
-                    meth[1][0] == "cmp" and meth[1][1] == ("==",)
-                ok = on_term and selects
-                why = f"value selector is {show(meth)[:140]} on {show(recv)}"
-                # the compared type: self.type, replaced by infer_type(fuzzy output) when Automatic
-                tcmp = [x for x in meth[1][2] if x != ("global", "fuzzylite.defuzzifier.WeightedDefuzzifier.Type.Tsukamoto")] if meth[0] == "ifexp" else []
-                if ok and tcmp:
-                    tt = tcmp[0]
-                    AUTO = ("global", "fuzzylite.defuzzifier.WeightedDefuzzifier.Type.Automatic")
-                    ok = False
-                    if tt[0] == "ifexp" and tt[1][0] == "cmp" and set(tt[1][2]) == {("attr", SELF, "type"), AUTO}:
-                        inferred, explicit = (tt[2], tt[3]) if tt[1][1] == ("==",) else ((tt[3], tt[2]) if tt[1][1] == ("!=",) else (None, None))
-                        ok = explicit is not None and path_of(explicit) == "self.type" and inferred[0] == "call" and inferred[1][0] == "attr" and \
-                            inferred[1][2] == "infer_type" and inferred[2] == (("param", f["fn"].params[1].name),)
-                    why = f"type used for the selection is {show(tt)[:160]} (expected: the explicit type, or infer_type(fuzzy output) iff the type is Automatic)"
-            check.require(ok, "S3", f"{name}.defuzzify/value",
-                          "z = term.tsukamoto(w) iff the resolved type (explicit, or inferred when Automatic) is Tsukamoto, else term.membership(w)" if ok else why,
-                          loc(f["fn"], f["head"]))
 
 
 # ------------------------------------------------------------------------------------------------ T-inf
@@ -302,108 +171,7 @@ def infer_type_table(check: Check) -> None:
 
 
 # ------------------------------------------------------------------------------------------------ A2
-def term_env(cls_name: str, yname: str, yval: Abs):
-    def env(t: Term):
-        if t == ("param", yname):
-            return yval
-        if t[0] == "attr" and t[1] == ("param", "self"):
-            if t[2] == "height":
-                return Abs({POS})
-            if t[2] in SLOPES:
-                return Abs({NEG, POS})
-            return Abs(FINITE)
-        return None
-    return env
 
 
-def zero_weight(check: Check, facts: dict) -> None:
-    p = check.program
-    base = p.cls("Term")
-    mono = [c for c in p.subclasses("Term") if c.lookup("tsukamoto") is not None and c.lookup("tsukamoto").cls is not base]
-    if len(mono) < 6:
-        raise AnalysisError("monotonic terms not found")
-    for dname, f in facts.items():
-        w, wname, zname = _w_z(f)
-        if not zname:
-            continue
-        inc = f["accs"][zname]["inc"]
-        # whatever the term's value at 0 is (a Function term may evaluate to +-inf or NaN there), for every kind of defuzzifier
-        top = Abs({NAN, NINF, NEG, ZERO, POS, PINF})
-
-        def env_any(t: Term, w=w):
-            if t == w:
-                return Abs({ZERO})
-            if t[0] == "call" and t[2] == (w,) and t[1][0] == "call":
-                return top
-            return None
-
-        contrib = Evaluator(p, env_any).ev(inc)
-        ok = contrib == Abs({ZERO})
-        check.require(ok, "A2", f"{dname}.defuzzify/any-term",
-                      f"contribution of a zero-degree activation whose term value is anything (finite, +-inf, NaN) = {show_abs(contrib)}" +
-                      ("" if ok else ": an activation with degree 0 changes the result for some kind of term / defuzzifier type (0 x inf = NaN)"),
-                      loc(f["fn"], f["head"]), {"contribution": show_abs(contrib), "expression": show(inc)[:160]}, exhaustive=True, cases=1)
-        for c in mono:
-            ts = c.lookup("tsukamoto")
-            check.analysed(ts)
-            y = ts.params[1].name
-            z0 = Evaluator(p, term_env(c.name, y, Abs({ZERO}))).ev(return_term(p, c, "tsukamoto"))
-
-            def env(t: Term, z0=z0, w=w):
-                if t == w:
-                    return Abs({ZERO})
-                if t[0] == "call" and t[2] == (w,) and t[1][0] == "call":
-                    return z0  # z = selected method applied to w
-                return None
-
-            contrib = Evaluator(p, env).ev(inc)
-            ok = contrib == Abs({ZERO})
-            check.require(ok, "A2", f"{dname}.defuzzify/{c.name}",
-                          f"{c.name}: tsukamoto(0) = {show_abs(z0)}, contribution of a zero-degree activation = {show_abs(contrib)}" +
-                          ("" if ok else ": an activation with degree 0 changes the result (0 x inf = NaN poisons the sums)"),
-                          loc(f["fn"], f["head"]), {"tsukamoto(0)": show_abs(z0), "contribution": show_abs(contrib), "expression": show(inc)[:160]},
-                          exhaustive=True, cases=1)
 
 
-def empty_or_zero(check: Check, facts: dict) -> None:
-    """A3: no activations, or all weights zero => NaN; weights accumulate w."""
-    p = check.program
-    for dname, f in facts.items():
-        w, wname, zname = _w_z(f)
-        if not (wname and zname) or f["ret"] is None:
-            continue
-        r, cfg = f["r"], f["cfg"]
-        # seeds
-        seeds = {}
-        for name in (wname, zname):
-            it = [q for q, _ in f["head"].pred if q.kind == "iter"][0]
-            ds = cfg.defs_reaching(name, it)
-            seeds[name] = [r.term(d.value, d.node) for d in ds if d.value is not None]
-        itn = [q for q, _ in f["head"].pred if q.kind == "iter"][0]
-        zs = r.name_term(zname, itn)
-        ws = r.name_term(wname, itn)
-        seed_ok = const_value(ws) == 0
-        s = strip(zs)
-        isnan_ = lambda v: isinstance(v, float) and v != v  # noqa: E731
-        empty_nan = s[0] == "ifexp" and path_of(s[1]) is not None and s[1][2] == "terms" and const_value(s[2]) == 0 and isnan_(const_value(s[3]))
-        if s[0] == "ifexp" and s[1][0] == "unop" and s[1][1] == "not" and path_of(s[1][2]) is not None and s[1][2][2] == "terms":
-            empty_nan = const_value(s[3]) == 0 and isnan_(const_value(s[2]))
-        check.require(seed_ok and empty_nan, "A3", f"{dname}.defuzzify/seeds",
-                      "sums start at 0, and at NaN when the fuzzy output has no activations" if seed_ok and empty_nan else
-                      f"seeds: weights={show(ws) if ws else None}, values={show(zs) if zs else None}", loc(f["fn"]))
-
-        # abstract result when every weight is zero (and contributions are zero)
-        def env(t: Term, zname=zname, wname=wname, f=f):
-            if t[0] == "phi" and any(a == ("carried", zname) or (a[0] == "binop" and any(s == ("carried", zname) for s in walk(a))) for a in t[1]):
-                return Abs({ZERO})
-            if t[0] == "phi" and any(a == ("carried", wname) or (a[0] == "binop" and any(s == ("carried", wname) for s in walk(a))) for a in t[1]):
-                return Abs({ZERO})
-            return None
-
-        try:
-            res = Evaluator(p, env).ev(f["ret"])
-        except AnalysisError as ex:
-            raise AnalysisError(f"{dname}.defuzzify: result expression not understood ({ex})") from None
-        ok = res == Abs({NAN})
-        check.require(ok, "A3", f"{dname}.defuzzify/all-zero", f"with all weights zero the result is {show_abs(res)}" +
-                      ("" if ok else " (specified: NaN)"), loc(f["fn"], f["retnode"]), {"expression": show(f["ret"])[:200]}, exhaustive=True, cases=1)
